@@ -1,7 +1,7 @@
 (* Lemmas about Models/Fold.v: the folder as it is (sound on integer operands,
    refuted elsewhere) and the folder after fixes/C02-fold.diff (sound). *)
 From Coq Require Import ZArith List Bool Lia ZifyBool.
-From QV Require Import Sx Strs Fl Dec NumFmt Cell Machine Cpu Fold.
+From QV Require Import Sx Strs Fl Dec NumFmt Cell Machine Cpu Fold ExpShortcut.
 Import ListNotations.
 Open Scope Z_scope.
 Ltac Zify.zify_post_hook ::= Z.to_euclidean_division_equations.
@@ -774,7 +774,8 @@ Proof.
       inversion Hraw; subst w;
       destruct (push_checked _ _ _ Hk) as (cc & Hcc & Hp);
       exists cc; (split; [assumption|]);
-      cbn -[push]; unfold bind; cbn -[push];
+      cbn -[push exp_tail]; unfold bind; cbn -[push exp_tail];
+      rewrite ?exp_tail_same; unfold exp_tail_ref; cbn -[push];
       rewrite ?Ey, ?Ep; cbn -[push]; rewrite Hp; reflexivity.
 Qed.
 
